@@ -64,7 +64,14 @@ ItemExpression * ItemExpression::parse(Parser& p, Context& ctx, Expression * exp
   TokenPtr t = p.pop();
   if (t->code != TOKEN_INTEGER)
     throw ParseError(EXC_PARSE_INV_EXPRESSION, t);
-  unsigned item_no = (unsigned)std::stoul(t->text, nullptr, 10);
+  /* the item number must fit an unsigned: std::stoul throws a foreign
+   * exception beyond 2^64, and larger values than UINT_MAX were truncated */
+  unsigned long item_ul = 0;
+  try { item_ul = std::stoul(t->text, nullptr, 10); }
+  catch (std::out_of_range&) { throw ParseError(EXC_PARSE_OUT_OF_INDICE, t->text.c_str(), t); }
+  if (item_ul > 0xffffffffUL)
+    throw ParseError(EXC_PARSE_OUT_OF_INDICE, t->text.c_str(), t);
+  unsigned item_no = (unsigned)item_ul;
   switch (exp_type.major())
   {
   case Type::NO_TYPE:
